@@ -17,7 +17,7 @@
 (* This module also enumerates the scenarios (Init / Emit) with their feature predicates.               *)
 EXTENDS Lattice, TLC, Json, Randomization
 
-CONSTANTS Fam,     \* "quad" | "cubic" | "arc"
+CONSTANTS Fam,     \* "quad" | "cubic" | "arc" | "chain"
           N,       \* lattice 0..N for control points
           Num      \* random subset size (0 = all)
 
@@ -57,6 +57,25 @@ ArcLarge(c) == LET s == CirclePt(c.a) e == CirclePt(ArcIdx(c.a, c.n, c.ccw)) x =
 \* stretched by at most 2 on the ellipse
 ArcGap(shape) == IF shape = "circle" THEN 4 * ArcQ(shape) ELSE 7 * ArcQ(shape)
 
+\* ---- chains: one sub-path [curve A][straight line][curve B] ----------------------------------------------------------
+\* Path.replace rebuilds the path segment by segment through the builder; a replaced curve whose last piece is collinear
+\* with the following LineTo is merged with it, and the next curve must still start where the line ends. A is a
+\* near-straight quad / cubic on the chord (0,0)-(50,0) (control points 1 or 2 units off the chord, so that Flatten at
+\* t0 = 5/2 returns the chord), the line is collinear with that chord (or not, or shorter), B is a smooth quad / cubic.
+\* Lattice 0..150, Q = 16 per unit. Way-points: those of A followed by those of B (the line joins A's last to B's first).
+QCH == 16
+BezWP(p, q) == IF Len(p) = 3 THEN [j \in 1..33 |-> <<RoundDiv(QuadAt(p, j - 1, 1) * q, 1024), RoundDiv(QuadAt(p, j - 1, 2) * q, 1024)>>]
+               ELSE [j \in 1..17 |-> <<RoundDiv(CubeAt(p, j - 1, 1) * q, 4096), RoundDiv(CubeAt(p, j - 1, 2) * q, 4096)>>]
+BezGap(p, q) == IF Len(p) = 3 THEN (VLen(D2(p[1], p[2], p[3])) * q) \div 4096 + 1
+                ELSE (3 * MaxI(VLen(D2(p[1], p[2], p[3])), VLen(D2(p[2], p[3], p[4]))) * q) \div 1024 + 1
+ChainWP(c) == BezWP(c.ca, QCH) \o BezWP(c.cb, QCH)
+ChainGap(c) == MaxI(BezGap(c.ca, QCH), BezGap(c.cb, QCH))
+ChainAs == {<< <<0,0>>, <<15,e>>, <<35,e>>, <<50,0>> >> : e \in {1, 2, -1}} \cup {<< <<0,0>>, <<25,e>>, <<50,0>> >> : e \in {1, -2}}
+ChainLs == {<<100, 0>>, <<75, 0>>, <<100, 10>>}
+ChainBs(l) == { << l, <<l[1] + 25, l[2] + 25>>, <<l[1] + 50, l[2]>> >>,
+                << l, <<l[1] + 10, l[2] + 20>>, <<l[1] + 30, l[2] + 30>>, <<l[1] + 50, l[2] + 30>> >> }
+Chains == {[type |-> "chain", ca |-> a, cb |-> b] : a \in ChainAs, b \in UNION {ChainBs(l) : l \in ChainLs}}
+
 \* ---- scenario features ----------------------------------------------------------------------------------------
 \* control point collinear with, and outside, the end points (the curve runs past an end and comes back)
 QuadCollinearOvershoot(p) == /\ Cross(p[1], p[3], p[2]) = 0 /\ p[1] # p[2] /\ p[3] # p[2]
@@ -71,6 +90,7 @@ CubeCollinear(p) == Cross(p[1], p[4], p[2]) = 0 /\ Cross(p[1], p[4], p[3]) = 0 /
 Features == CASE cv.type = "quad"  -> [overshoot |-> QuadCollinearOvershoot(cv.pts), startend |-> cv.pts[1] = cv.pts[3], collinear |-> Cross(cv.pts[1], cv.pts[3], cv.pts[2]) = 0, chordrx |-> FALSE, fold |-> Fold(cv.pts)]
               [] cv.type = "cubic" -> [overshoot |-> FALSE, startend |-> cv.pts[1] = cv.pts[4], collinear |-> CubeCollinear(cv.pts), chordrx |-> FALSE, fold |-> Fold(cv.pts)]
               [] cv.type = "arc"   -> [overshoot |-> FALSE, startend |-> FALSE, collinear |-> FALSE, chordrx |-> cv.shape = "chordrx", fold |-> FALSE]
+              [] cv.type = "chain" -> [overshoot |-> FALSE, startend |-> FALSE, collinear |-> FALSE, chordrx |-> FALSE, fold |-> Fold(cv.ca) \/ Fold(cv.cb)]
 
 \* ---- enumeration ----------------------------------------------------------------------------------------------------
 Pt == (0..N) \X (0..N)
@@ -82,6 +102,7 @@ NotAPoint(p) == \E i \in 2..Len(p) : p[i] # p[1]            \* a curve whose con
 Choice == CASE Fam = "quad"  -> {[type |-> "quad", pts |-> p] : p \in {x \in Ctl(3) : NotAPoint(x)}}
             [] Fam = "cubic" -> {[type |-> "cubic", pts |-> p] : p \in {x \in Ctl(4) : NotAPoint(x)}}
             [] Fam = "arc"   -> (IF Num = 0 THEN Arcs ELSE RandomSubset(Num, Arcs)) \cup ChordRx
+            [] Fam = "chain" -> Chains
 Init == cv \in Choice /\ done = FALSE
 \* geometry of an arc for the harness (lattice units, centre at the origin; chordrx: a horizontal chord of length rx)
 ArcGeom(c) == IF c.shape = "chordrx"
@@ -108,6 +129,10 @@ CurveLaws ==
             /\ \A i \in 0..35 : LET a == CirclePt(i) b == CirclePt((i + 1) % 36) IN
                   a[1] * a[1] + a[2] * a[2] = R * R /\ a[1] * b[2] - a[2] * b[1] > 0
             /\ cv.shape # "chordrx" => LET w == ArcWPu(cv) IN Len(w) = cv.n + 1 /\ (ArcLarge(cv) <=> cv.n > 18)
+      [] cv.type = "chain" -> LET w == ChainWP(cv) a == cv.ca b == cv.cb IN
+            /\ w[1] = <<QCH * a[1][1], QCH * a[1][2]>> /\ w[Len(w)] = <<QCH * b[Len(b)][1], QCH * b[Len(b)][2]>>
+            /\ \E j \in 1..(Len(w) - 1) : w[j] = <<QCH * a[Len(a)][1], QCH * a[Len(a)][2]>> /\ w[j + 1] = <<QCH * b[1][1], QCH * b[1][2]>>
+            /\ ~Fold(a) /\ ~Fold(b)
 
 \* ---- judging an output polyline (all coordinates in Q units) ----------------------------------------------------
 \* distance from s to the segment ab is at most r ; sq = ceiling of the length of ab (the accepting side is widened)
